@@ -102,8 +102,11 @@ def str_literal(s, style):
                 out.append("\\n")
             elif ch == "\t":
                 out.append("\\t")
+            elif ch in "/\b\f\r":
+                # the remaining named escapes of the grammar: \/ \b \f \r
+                out.append({"/": "\\/", "\b": "\\b", "\f": "\\f", "\r": "\\r"}[ch])
             elif ord(ch) < 0x20 or ord(ch) == 0x7f:
-                out.append("\\u%04x" % ord(ch))
+                out.append(("\\u%04X" if len(s) % 2 else "\\u%04x") % ord(ch))
             elif ord(ch) > 0xffff and len(s) % 2:
                 # astral code point as a surrogate pair escape
                 v = ord(ch) - 0x10000
